@@ -88,6 +88,8 @@ func InstallDisk() {
 	})
 	Override("os.MkdirAll", dmMkdirAll)
 	Override("os.Mkdir", dmMkdir)
+	mkdirTempCtr = 0
+	OverrideIfPresent("os.MkdirTemp", dmMkdirTemp)
 	Override("os.Rename", dmRename)
 	Override("os.RemoveAll", dmRemoveAll)
 	Override("os.Remove", dmRemoveAll)
@@ -165,6 +167,30 @@ func dmMkdir(path string, perm os.FileMode) error {
 	d.Exists = true
 	afterEffect()
 	return nil
+}
+
+var mkdirTempCtr int
+
+// dmMkdirTemp: os.MkdirTemp's documented naming: the last "*" of the pattern is replaced by a random string, or the
+// random string is appended when there is none; the directory is new (here: rnd0, rnd1, ... - never an existing name)
+func dmMkdirTemp(base, pattern string) (string, error) {
+	rnd := "rnd" + string(rune('0'+mkdirTempCtr%10))
+	mkdirTempCtr++
+	name := pattern + rnd
+	for i := len(pattern) - 1; i >= 0; i-- {
+		if pattern[i] == '*' {
+			name = pattern[:i] + rnd + pattern[i+1:]
+			break
+		}
+	}
+	p := base + "/" + name
+	if base == "" {
+		p = "/tmp/" + name
+	}
+	if err := dmMkdir(p, 0700); err != nil {
+		return "", err
+	}
+	return p, nil
 }
 
 func dmRename(oldp, newp string) error {
